@@ -32,11 +32,41 @@ type Cov struct {
 	lossyScn  int
 	legacyScn int
 	longest   int
+	linkPairs map[string]map[[2]int]bool // producer -> (prev link state, next link state)
+	linkScn   int
+	linkTail  int // scenarios whose last cell carries a hyperlink
+	osc8Open  int
+	osc8Close int
 }
 
 func NewCov() *Cov {
 	return &Cov{attrPairs: map[string]map[[2]uint8]bool{}, usPairs: map[string]map[[2]uint8]bool{},
-		clsPairs: map[string]map[[3]int]bool{}, triPairs: map[string]map[[2]int]bool{}, forms: map[string]int{}}
+		clsPairs: map[string]map[[3]int]bool{}, triPairs: map[string]map[[2]int]bool{}, forms: map[string]int{},
+		linkPairs: map[string]map[[2]int]bool{}}
+}
+
+func (c *Cov) osc8(ln int) {
+	c.mu.Lock()
+	if ln == 0 {
+		c.osc8Close++
+	} else {
+		c.osc8Open++
+	}
+	c.mu.Unlock()
+}
+
+// linkState classifies a cell's hyperlink relative to its predecessor's: 0 none, 1 the same
+// URI and parameters, 2 the same URI with other parameters, 3 another URI.
+func linkState(prev, n StyleD) int {
+	switch {
+	case n.L == "":
+		return 0
+	case n.L == prev.L && n.LP == prev.LP:
+		return 1
+	case n.L == prev.L:
+		return 2
+	}
+	return 3
 }
 
 // Class of a colour: 0 default, 1 index 0-7, 2 index 8-15, 3 index 16-255, 4 direct.
@@ -112,8 +142,18 @@ func (c *Cov) scenario(sc *Scn, rt bool) {
 		c.triPairs[key] = map[[2]int]bool{}
 	}
 	prev := StyleD{}
+	linked, ps := false, 0
 	for _, x := range sc.Cells {
 		n := x.S
+		if n.L != "" || linked {
+			if c.linkPairs[key] == nil {
+				c.linkPairs[key] = map[[2]int]bool{}
+			}
+			st := linkState(prev, n)
+			c.linkPairs[key][[2]int{ps, st}] = true
+			ps = st
+			linked = true
+		}
 		c.attrPairs[key][[2]uint8{prev.At, n.At}] = true
 		c.usPairs[key][[2]uint8{prev.Us, n.Us}] = true
 		pc := [3]int{Class(prev.Fg), Class(prev.Bg), Class(prev.Ul)}
@@ -123,6 +163,12 @@ func (c *Cov) scenario(sc *Scn, rt bool) {
 		}
 		c.triPairs[key][[2]int{pc[0]*25 + pc[1]*5 + pc[2], nc[0]*25 + nc[1]*5 + nc[2]}] = true
 		prev = n
+	}
+	if linked {
+		c.linkScn++
+		if prev.L != "" {
+			c.linkTail++
+		}
 	}
 }
 
@@ -137,6 +183,7 @@ func (c *Cov) Report() map[string]any {
 			"underline_style_pairs_of_36":     len(c.usPairs[k]),
 			"colour_class_pairs_of_75":        len(c.clsPairs[k]),
 			"colour_class_triple_pairs_15625": len(c.triPairs[k]),
+			"hyperlink_state_pairs_of_16":     len(c.linkPairs[k]),
 		}
 	}
 	forms := make([]string, 0, len(c.forms))
@@ -147,7 +194,9 @@ func (c *Cov) Report() map[string]any {
 	return map[string]any{"per_producer": per, "sgr_forms_produced": forms, "fuzz_lists": c.fuzzN,
 		"fuzz_lists_truncated_extended_colour": c.fuzzTrunc, "cells_encoded": c.cells,
 		"scenarios_round_trip": c.rtScn, "scenarios_fallback_no_round_trip": c.lossyScn,
-		"scenarios_legacy_sgr": c.legacyScn, "longest_sequence_cells": c.longest}
+		"scenarios_legacy_sgr": c.legacyScn, "longest_sequence_cells": c.longest,
+		"scenarios_with_hyperlinked_cells": c.linkScn, "scenarios_last_cell_hyperlinked": c.linkTail,
+		"hyperlinks_opened_by_producers": c.osc8Open, "hyperlink_closings_by_producers": c.osc8Close}
 }
 
 // ---- generators ------------------------------------------------------------
@@ -393,6 +442,67 @@ func Fixed() [][]CellD {
 	}
 }
 
+// ---- hyperlinked cells -------------------------------------------------------
+
+var linkURIs = []string{"http://x", "https://example.com/a;b=m[1]?q=%20:8#f", "file:///tmp/\x1b"[:12], "mailto:a@b.c"}
+var linkParams = []string{"", "id=1", "id=2", "id=a1:foo=bar"}
+
+// LinkFixed: hand-written hyperlink cases (codecs only).
+func LinkFixed() [][]CellD {
+	c := func(g string, s StyleD) CellD { return CellD{G: g, S: s} }
+	u, v := linkURIs[0], linkURIs[1]
+	return [][]CellD{
+		// a link that ends before the string does
+		{c("a", StyleD{L: u, Fg: idx(1)}), c("b", StyleD{})},
+		// the last cell is linked: the string must not leave the link open
+		{c("a", StyleD{L: u, At: attr(1)})},
+		{c("a", StyleD{L: u})},
+		{c("a", StyleD{}), c("b", StyleD{L: v, LP: "id=1"})},
+		// links changing between neighbours, with and without parameters
+		{c("a", StyleD{L: u}), c("b", StyleD{L: v}), c("c", StyleD{L: v, LP: "id=7"}), c("d", StyleD{})},
+		{c("a", StyleD{L: u, LP: "id=1"}), c("b", StyleD{L: u, LP: "id=1"}), c("c", StyleD{L: u, LP: "id=2"}), c("d", StyleD{L: u}), c("e", StyleD{})},
+		// the link ends where every channel of the style changes
+		{c("a", StyleD{L: u, Fg: rgbc(1, 2, 3), Bg: idx(200), Ul: idx(7), Us: 3, At: attr(127)}), c("b", StyleD{Bg: idx(3)}), c("c", StyleD{})},
+		// one link over many style changes
+		{c("a", StyleD{L: v, Fg: idx(1)}), c("b", StyleD{L: v, Fg: idx(9), At: attr(3)}), c("c", StyleD{L: v, At: attr(2)}), c("d", StyleD{L: v}), c("e", StyleD{L: v, Us: 3, Ul: rgbc(9, 8, 7)})},
+		// linked multi-code-point graphemes and graphemes that look like control-string syntax
+		{c("世", StyleD{L: u}), c("👩‍🚀", StyleD{L: u, LP: "id=x"}), c("é", StyleD{}), c("]", StyleD{L: v}), c("8", StyleD{L: v}), c(";", StyleD{L: u}), c("\\", StyleD{})},
+		// parameters without a URI are no link
+		{c("a", StyleD{LP: "id=1"}), c("b", StyleD{})},
+	}
+}
+
+// LinkChain: every ordered pair of hyperlink states {none, u, u+id=1, u+id=2, v, v+id=1}
+// between neighbours; styles from ctx (nil: default).
+func LinkChain(ctx func(i int) StyleD) []StyleD {
+	states := []StyleD{{}, {L: linkURIs[0]}, {L: linkURIs[0], LP: "id=1"}, {L: linkURIs[0], LP: "id=2"}, {L: linkURIs[1]}, {L: linkURIs[1], LP: "id=1"}}
+	nodes := pairChain(len(states))
+	out := make([]StyleD, len(nodes))
+	for i, n := range nodes {
+		if ctx != nil {
+			out[i] = ctx(i)
+		}
+		out[i].L, out[i].LP = states[n].L, states[n].LP
+	}
+	return out
+}
+
+// RandLinkCells: random cells over which runs of hyperlinks are laid.
+func RandLinkCells(rng *rand.Rand, n int, graphemes []string) []CellD {
+	cs := RandCells(rng, n, graphemes)
+	l, lp := "", ""
+	for i := range cs {
+		if i == 0 || rng.Intn(3) == 0 {
+			l, lp = "", ""
+			if rng.Intn(3) != 0 {
+				l, lp = pick(rng, linkURIs), pick(rng, linkParams)
+			}
+		}
+		cs[i].S.L, cs[i].S.LP = l, lp
+	}
+	return cs
+}
+
 // ---- arbitrary parameter lists ------------------------------------------------
 
 var fuzzVals = []string{"", "0", "1", "2", "3", "4", "5", "6", "7", "9", "21", "22", "24", "29", "30", "37", "38", "39", "47", "48", "49",
@@ -530,6 +640,24 @@ func Generate(rng *rand.Rand, thorough bool) []*Scn {
 		add(forProducers("random", [][]CellD{RandCells(rng, n, pool)}, []string{"cells", "ss"}, false, 0))
 		add(forProducers("random", [][]CellD{RandCells(rng, n, narrowPool)}, []string{"render"}, false, MaskFull))
 	}
+	// hyperlinked cells through the two codecs (the renderer's hyperlinks belong to other properties)
+	codecs := []string{"cells", "ss"}
+	add(forProducers("links-fixed", LinkFixed(), codecs, false, 0))
+	add(forProducers("link-pairs", chunk("link", LinkChain(nil), chunkSize), codecs, false, 0))
+	nlctx := 2
+	if thorough {
+		nlctx = 20
+	}
+	for k := 0; k < nlctx; k++ {
+		add(forProducers("link-pairs-in-style-context", chunk("link", LinkChain(func(int) StyleD { return RandStyle(rng) }), chunkSize), codecs, false, 0))
+	}
+	for i := 0; i < nrand/3; i++ {
+		n := 1 + rng.Intn(30)
+		if i < 12 {
+			n = 1 + i%4
+		}
+		add(forProducers("random-links", [][]CellD{RandLinkCells(rng, n, pool)}, codecs, false, 0))
+	}
 	// long sequences (several parser buffers)
 	nlong := 2
 	if thorough {
@@ -592,6 +720,10 @@ func Generate(rng *rand.Rand, thorough bool) []*Scn {
 	}
 	add(forProducers("palette", chunk("palette", PaletteSweep(), chunkSize), all3, true, MaskFull))
 	add(forProducers("fixed", Fixed(), all3, true, MaskFull))
+	add(forProducers("links-fixed", LinkFixed(), []string{"cells", "ss"}, true, 0))
+	for i := 0; i < nrand/12; i++ {
+		add(forProducers("random-links", [][]CellD{RandLinkCells(rng, 1+rng.Intn(20), narrowPool)}, []string{"cells", "ss"}, true, 0))
+	}
 	for i := 0; i < nrand/4; i++ {
 		add(forProducers("random", [][]CellD{RandCells(rng, rng.Intn(30), narrowPool)}, all3, true, MaskFull))
 	}
